@@ -181,13 +181,15 @@ theorem removeSubgroups_spec (ws : List (DcW V)) (ns ns' : Dict V) (sub : Option
     split at h
     · exact absurd h (by simp)
     · split at h
-      · rename_i ns1 sub1 hm
-        simp only [Out.ok.injEq, Prod.mk.injEq] at h
-        obtain ⟨rfl, _⟩ := h
-        rw [he]
-        exact moveSubgroups_spec _ _ _ _ _ hm
       · exact absurd h (by simp)
-      · exact absurd h (by simp)
+      · split at h
+        · rename_i ns1 sub1 hm
+          simp only [Out.ok.injEq, Prod.mk.injEq] at h
+          obtain ⟨rfl, _⟩ := h
+          rw [he]
+          exact moveSubgroups_spec _ _ _ _ _ hm
+        · exact absurd h (by simp)
+        · exact absurd h (by simp)
 
 /-! ### `_fill_constructor_arguments_with_fields` -/
 
